@@ -174,8 +174,19 @@ def stmt_size(stmt: Dict[str, Any]) -> int:
     if t == "defs":
         return int(stmt["n"])
     if t == "defm":
-        return len(stmt["s"])
+        return len(defm_bytes(stmt["s"]))
     return 0
+
+
+def defm_bytes(text: str) -> bytes:
+    """Bytes of a defm string.  Without a backslash: the characters themselves.  With backslash sequences the
+    documentation does not say whether they are decoded, so the reference is what assembling the statement ALONE
+    emits (the property's own standalone-equivalence clause); what is then asserted in a program is that the first
+    pass reserves exactly that many bytes and the second pass emits exactly those bytes."""
+    if "\\" not in text:
+        return text.encode("ascii")
+    data, _err = standalone('defm "' + text + '"', None)
+    return data if data is not None else text.encode("ascii")
 
 
 def layout(prog: Dict[str, Any]) -> Dict[str, Any]:
@@ -337,7 +348,7 @@ def expected_data(stmt: Dict[str, Any], syms: Dict[str, int]) -> Optional[bytes]
             out += (v & ((1 << (8 * w)) - 1)).to_bytes(w, "little")
         return bytes(out)
     if t == "defm":
-        return stmt["s"].encode("ascii")
+        return defm_bytes(stmt["s"])
     return None  # defs: only the count of reserved bytes is asserted
 
 
